@@ -459,3 +459,33 @@ def ob_lexer_wrapper(r, tier, seed):
 
 def obligations_lexer_wrapper(prefix):
     return [Ob(prefix + '-lexer-wrapper', 'the lexer wrapper hands every logos token on unchanged (text = slice, range = span)', ob_lexer_wrapper, ('quick', 'thorough'), 2, {})]
+
+# ----------------------------------------------------------------------------- O4.10 constructs whose look-ahead grows with the input (the trait path of an impl block)
+def ob_long_lookahead(r, tier, seed, ks):
+    """`impl A::A::..::A <hole> T { }` with k path segments around the fuel constant (256 look-aheads without progress): the look-ahead
+    of impl_has_trait walks the whole path; the token after the path is an arbitrary kind."""
+    pw = PW(); pw.W.step_limit = 6000000
+    r.bounds = 'token sequences `impl (ident ::)^k ident H ident { }` for k in %s, H an arbitrary token kind (with H = `for` a valid impl block whose trait path has k + 1 segments)' % (list(ks),)
+    r.assumptions = ['as O4.2-seq: abstract token texts/ranges, TokenKind Display stubbed, rowan recorder', 'additional assertion: with H = `for` the input is a valid program and must parse without diagnostics']
+    for k in ks:
+        h = z3.Int('h')
+        specs = ['ImplKeyword'] + ['Ident', 'ColonColon'] * k + ['Ident', h, 'Ident', 'LBrace', 'RBrace']
+        n = len(specs); allowed = [i for i in range(len(pw.kinds)) if i != pw.eof]
+        res = explore_tokens(r, pw, specs, [], [], 'path-%d' % k)
+        for p in res:
+            if p.kind != 'ok': continue
+            m, _ = e2.check(list(p.pc) + [h == pw.TK.vindex('ForKeyword')])
+            if m is not None and p.value[3] > 0 and not any(f.key == 'valid-impl-rejected' for f in r.findings):
+                names = [s_ if isinstance(s_, str) else 'ForKeyword' for s_ in specs]
+                nat = native_parse(names, table=pw.kinds)
+                nd_ = nat.get('ok', {}).get('diagnostics', 0) if 'ok' in nat else 0; ok_ = bool(nat.get('panic')) or (len(nd_) if isinstance(nd_, list) else int(nd_)) > 0      # a debug build panics in parse_path_inner's debug assertion where the MIR (debug assertions off) reports diagnostics
+                if ACCEPT_KEYS is None or 'panic' in ACCEPT_KEYS:
+                    r.findings.append(Finding('valid-impl-rejected', 'a valid impl block whose trait path has %d segments is reported with %d parser diagnostics' % (k + 1, p.value[3]), {'segments': k + 1, 'native': str(nat)[:200]}, ok_, json.dumps(nat)[:300]))
+    if len(r.samples) < 3: r.samples.append({'k': list(ks)})
+
+def obligations_long_lookahead(prefix='O4.10'):
+    return [Ob(prefix + '-long-lookahead-short', 'impl blocks with trait paths of 1..3 segments and an arbitrary token after the path', ob_long_lookahead, ('quick', 'thorough'), 3, dict(ks=(0, 1, 2))),
+            Ob(prefix + '-long-lookahead-126', 'impl block with a trait path of 127 segments', ob_long_lookahead, ('quick', 'thorough'), 30, dict(ks=(126,))),
+            Ob(prefix + '-long-lookahead-127', 'impl block with a trait path of 128 segments', ob_long_lookahead, ('quick', 'thorough'), 30, dict(ks=(127,))),
+            Ob(prefix + '-long-lookahead-128', 'impl block with a trait path of 129 segments', ob_long_lookahead, ('quick', 'thorough'), 30, dict(ks=(128,))),
+            Ob(prefix + '-long-lookahead-300', 'impl block with a trait path of 301 segments', ob_long_lookahead, ('thorough',), 60, dict(ks=(300,)))]
